@@ -78,6 +78,10 @@ class _Strip(ast.NodeTransformer):
     def visit_If(self, n):
         self.generic_visit(n)
         n.body = self._body(n.body)
+        # an `if` that guards nothing but messages (`if s1.shape[0] == 0: warnings.warn(...)`): WHEN a message is shown is as free as
+        # its text -- the condition is dropped, the (emptied) message calls stay
+        if not n.orelse and all(isinstance(x, ast.Expr) and isinstance(x.value, ast.Call) and core.norm_expr(x.value.func) in self.MSG_FUNCS for x in n.body):
+            return n.body
         return n
 
     def visit_For(self, n):
@@ -213,7 +217,19 @@ BODY_FUNCS = ["Motl.__init__", "Motl.create_empty_motl_df", "Motl.check_df_corre
               "Motl.renumber_objects_sequentially", "EmMotl.__init__"]
 
 
-SUBCLASSES = ["EmMotl", "StopgapMotl", "RelionMotl", "DynamoMotl"]
+# the list classes of cryomotl.py with a receiver stream (generator: CLASSES) and a constructor anchor. The translator DERIVES the
+# list of classes whose base chain reaches Motl from the source (`motl_subclasses`); a class found there and not listed here (or the
+# other way round) is a failed translator obligation (`subclasses_documented` names it): a new list class has no stream yet.
+SUBCLASSES = ["EmMotl", "RelionMotl", "StopgapMotl", "DynamoMotl", "ModMotl"]
+
+
+def motl_subclasses(tree):
+    """names of the module's classes whose base chain reaches Motl, in source order"""
+    bases = {c.name: [core.norm_expr(b).split(".")[-1] for b in c.bases] for c in tree.body if isinstance(c, ast.ClassDef)}
+
+    def reaches(name, seen=()):
+        return name not in seen and any(b == "Motl" or reaches(b, seen + (name,)) for b in bases.get(name, []))
+    return [c.name for c in tree.body if isinstance(c, ast.ClassDef) and c.name != "Motl" and reaches(c.name)]
 
 
 def _signature(fn):
@@ -715,11 +731,22 @@ def extract(src):
         return sorted(out)
     g["overrides"] = src.anchor("subclasses:overrides-of-anchored-methods", overrides)
 
+    def subclasses():
+        found = motl_subclasses(src.tree(REL))
+        if sorted(found) != sorted(SUBCLASSES):
+            raise core.AnchorMissing(f"classes derived from Motl in the source: {found}; classes with a receiver stream and a constructor anchor: {SUBCLASSES} "
+                                     f"(no stream for {sorted(set(found) - set(SUBCLASSES))}, gone {sorted(set(SUBCLASSES) - set(found))})")
+        return found
+    g["subclasses"] = src.anchor("subclasses:every-class-derived-from-Motl-has-a-receiver-stream", subclasses)
+
     def ctors():
         """what each subclass constructor does with a DataFrame: `cls(<merged frame>)` in the class methods relies on
-        `self.check_df_type(frame)` (a frame with the 20 columns is taken as it is, index reset, missing values filled)"""
+        `self.check_df_type(frame)` (a frame with the 20 columns is taken as it is, index reset, missing values filled) and on nothing
+        else happening in that branch. Runs over every class the SOURCE derives from Motl, listed or not."""
         out = []
-        for cname in SUBCLASSES:
+        for cname in motl_subclasses(src.tree(REL)):
+            if not any(isinstance(st, ast.FunctionDef) and st.name == "__init__" for st in src.find(REL, cname).body):
+                out.append(f"{cname}:<inherited>"); continue
             fn = src.find(REL, f"{cname}.__init__")
             ap = fn.args.args[1].arg
             hits = []
@@ -780,7 +807,7 @@ DOC["md_shift"], DOC["md_minmax"], DOC["md_load"] = DOC["mr_shift"], DOC["mr_min
 DOC_CMP = dict(subset_cmp="eq", remove_cmp="ne", split_cmp="eq", mr_cmp="le", md_cmp="le")
 DOC_NAT = dict(fill_value=0, rp_start=1, ro_default=1)
 DOC_LOOP = dict(subset_loop=dict(iter="requested", norm="atleast1d", acc="append", reset="dropTrue", sameFrame=True),
-                remove_loop=dict(iter="requested", norm="listOrArrayElseWrap", acc="narrow", reset="absent", sameFrame=True),
+                remove_loop=dict(iter="requested", norm="atleast1d", acc="narrow", reset="absent", sameFrame=True),
                 split_loop=dict(iter="uniqueFirst", norm="none", acc="append", reset="absent", sameFrame=True))
 DOC_OBJ = dict(groupKey="tomo_id", groupOrder="uniqueSorted", codes="factorizeFirst", startUpdate=1, reset="dropTrue", writesBack=True)
 
@@ -895,6 +922,7 @@ def objLoop : ObjLoop := {obj_()}
 -- subclasses: overrides of the anchored methods (none documented), what each constructor does with a DataFrame
 def subclassOverrides : List String := {strs("overrides") if isinstance(g.get("overrides"), list) else '["<missing>"]'}
 def subclassConstructors : List String := {strs("ctors")}
+def motlSubclasses : List String := {core.lean_str_list(g["subclasses"] if isinstance(g.get("subclasses"), list) else motl_subclasses(src.tree(REL)))}
 def signatures : List String := {strs("signatures")}
 def bodyDigests : List String := {strs("bodies")}
 end CryoCat.Gen.C08
@@ -923,7 +951,10 @@ RULE = ("histories: a base particle list of 0..200 rows (key fields tomo_id/obje
         "renumber_objects_sequentially; arguments are chosen against a pure-Python simulation of the current table so that most ops hit "
         "existing values (requested values as list / tuple / ndarray / scalar, repeated and absent values, empty value lists; second operands of "
         "intersection repeat ids and have up to 45 rows; merge inputs are Motl objects or bare DataFrames, some empty, 1..5 per call). "
-        "Receiver classes (M-5): the list the history starts from is a Motl / EmMotl / StopgapMotl / RelionMotl / DynamoMotl / Motl.load(frame) instance and "
+        "Round 7: requested values of subset AND remove come as list / tuple / ndarray / Series / scalar (remove_feature documents array-like: D34); the receiver and "
+        "list classes are EVERY class of cryomotl.py whose base chain reaches Motl (ModMotl included; translator obligation subclasses_documented); the large-ids stream also "
+        "draws adjacent ids from 2^24 on (one number in single precision) and nextafter neighbours as scores / geom1 values. "
+        "Receiver classes (M-5): the list the history starts from is a Motl / EmMotl / StopgapMotl / RelionMotl / DynamoMotl / ModMotl / Motl.load(frame) instance and "
         "the class methods (intersection, both merges) are called on each of these classes (42% not the plain Motl); every class but Motl re-loads the frame it is given "
         "(missing values filled, row labels reset), so the REAL table after construction is the table the history is judged from. H3: the base frame carries shifted or "
         "duplicated row labels in 16% of the cases. An op that would grow the table beyond 400 rows is not taken (len(values) == len(rows) only for <= 24 rows). "
@@ -968,7 +999,7 @@ ASSUMPTIONS = [
 ]
 TRUSTED = ["spec findings are decided by the Lean verified checkers on the REAL output of every op -- by the EXECUTED PROVED INSTANCE (Model/C08_Cell.lean: cells decoded "
            "from their bit patterns into exact rationals, NaN -> `missing`; theorems check_step_iff_executed / check_run_iff_executed / check_history_rows_executed, no "
-           "hypothesis left) whenever no key cell of the step is missing (`proved` in the verdict; a disagreement with the Float run is the corr finding "
+           "hypothesis left) whenever no key cell of the step is missing or infinite (`proved` in the verdict; a disagreement with the Float run is the corr finding "
            "checker-instances-disagree), otherwise by the missing-value-aware Float checkers stepClausesM, which no theorem covers beyond dropDupClausesM_no_missing and "
            "the concrete witnesses -- or by an exception with a frame inside cryocat/ (classified by exception TYPE and operation, never by message text). A text cell in a "
            "numeric field and a caller-owned argument edited in place are corr (the statement is silent about them). Trusted around the checkers: the adapter that reads a "
@@ -1156,17 +1187,20 @@ def _domain(rng, f, big=False):
         return rng.choice([[1, 2, 3], [1, 2, 5, 9], [3, 7], [2], [10, 4, 1, 6, 8]])
     if f == "object_id":
         if big:
-            return rng.choice([[100001, 100002, 100003, 100004], [250017, 250018, 250019, 7, 8]])
+            # 2^24 + k: adjacent integers that are ONE number in single precision
+            return rng.choice([[100001, 100002, 100003, 100004], [250017, 250018, 250019, 7, 8], [16777216, 16777217, 16777218, 16777219, 3]])
         return rng.choice([[1, 2, 3, 4], [0, 1, 2], [5, 9, 2, 7, 11], [1], [-2, 0, 3, 4], [1, 2, 3, 4, 5, 6, 7, 8]])
     if f == "class":
         return [1, 2, 3]
     if f in ("geom1", "geom2", "subtomo_mean"):
         if big and f == "geom1":
-            return [0.75, 0.75 + 2.0 ** -20, 0.75 + 2.0 ** -19, 3.0]    # different values closer than 1e-5 relative
+            return rng.choice([[0.75, 0.75 + 2.0 ** -20, 0.75 + 2.0 ** -19, 3.0],     # different values closer than 1e-5 relative
+                               [0.75, math.nextafter(0.75, 1.0), math.nextafter(0.75, 0.0), 3.0]])
         return rng.choice([[0, 1, 2], [0.5, 1.5, 2.5, 3.0], [7]])
     if f == "score":
         if big:
-            return [0.5, 0.5 + 2.0 ** -21, 0.5 + 2.0 ** -20, 0.25, 1.0]
+            # neighbours in double precision (nextafter) and values 2^-21 apart: one number each in single precision / after rounding
+            return rng.choice([[0.5, 0.5 + 2.0 ** -21, 0.5 + 2.0 ** -20, 0.25, 1.0], [0.5, math.nextafter(0.5, 1.0), math.nextafter(0.5, 0.0), 0.25, 1.0]])
         return rng.choice([[0.25, 0.5, 0.75, 1.0], [k / 16 for k in range(17)], [0.5]])
     raise KeyError(f)
 
@@ -1231,7 +1265,7 @@ def _other_list(rng, cur, doms, id_pool, maxn):
 def _values(rng, cur, f, doms):
     present = py_uniq([val(r, f) for r in cur if not _nan(val(r, f))])
     pool = present if present else [1.0]
-    kind = rng.choices(["list", "tuple", "ndarray", "scalar"], [0.4, 0.15, 0.3, 0.15])[0]
+    kind = rng.choices(["list", "tuple", "ndarray", "scalar", "series"], [0.36, 0.17, 0.26, 0.14, 0.07])[0]
     nanreq = has_nan(cur, f) and rng.random() < 0.3      # a missing value among the requested ones
     if kind == "scalar":
         vs = [rng.choice(pool)] if rng.random() < 0.85 else [97.0]
@@ -1244,11 +1278,11 @@ def _values(rng, cur, f, doms):
     return kind, [fb(v) for v in vs]
 
 
-CLASSES = ["Motl", "EmMotl", "StopgapMotl", "RelionMotl", "DynamoMotl"]
+CLASSES = ["Motl"] + SUBCLASSES      # every list class of the module (translator obligation `subclasses_documented`)
 
 
 def _pick_cls(rng):
-    return rng.choices(CLASSES, [58, 14, 9, 9, 10])[0]
+    return rng.choices(CLASSES, [55] + [9] * len(SUBCLASSES))[0]
 
 
 def _gen_op(rng, cur, doms, id_pool, tier, ctx):
@@ -1260,8 +1294,7 @@ def _gen_op(rng, cur, doms, id_pool, tier, ctx):
     if kind in ("subset", "remove"):
         f = rng.choice(["tomo_id", "tomo_id", "tomo_id", "object_id", "class", "subtomo_id", "geom1", "score"] + pref * 3)
         vk, vs = _values(rng, cur, f, doms)
-        if kind == "remove" and vk == "tuple":
-            vk = "list"   # remove_feature documents list / ndarray / scalar
+        # remove_feature documents `feature_values : array-like` like get_motl_subset: tuples, arrays, Series and scalars are all generated
         op = dict(op=kind, f=f, vs=vs, vkind=vk)
         if kind == "subset":
             # G1: omit keywords whose value is the signature default (feature_id='tomo_id', return_df=False, reset_index=True)
@@ -1344,7 +1377,9 @@ def gen_case(rng, tier):
     doms = {f: _domain(rng, f, big) for f in KEY_FIELDS if f != "subtomo_id"}
     pool_n = max(1, int(max(n, 4) * rng.choice([0.5, 0.8, 1.5])))
     if big:   # adjacent particle numbers >= 1e5 (two different ids within 1e-5 relative of each other)
-        lo = rng.choice([100001, 250017, 1000003])
+        # 16777216 = 2^24: from there on adjacent integers are the same number in single precision (a comparison done in float32
+        # confuses 16777217 with 16777216)
+        lo = rng.choice([100001, 250017, 1000003, 16777216, 16777216])
         id_pool = rng.sample(range(lo, lo + 2 * pool_n + 1), pool_n)
     else:
         id_pool = rng.sample(range(1, 4 * pool_n + 1), pool_n)   # unsorted, with gaps; rows draw with repetition
@@ -1354,7 +1389,7 @@ def gen_case(rng, tier):
     ctx = dict(nanf=None, decf=None, big=big, pool=[], open=_open_ids())
     # M-5: the class of the list the history starts from (Motl.load(frame) returns an EmMotl); every class but the plain Motl
     # fills missing values when it is constructed, so the streams that are about missing keys start from a plain Motl
-    cls0 = "Motl" if stream in ("nan-key", "nan-decision") else rng.choices(CLASSES + ["load"], [56, 10, 7, 7, 8, 12])[0]
+    cls0 = "Motl" if stream in ("nan-key", "nan-decision") else rng.choices(CLASSES + ["load"], [52] + [7] * len(SUBCLASSES) + [13])[0]
     # H3: row labels a user naturally has (Motl(frame) keeps them): default / shifted / duplicated
     index = rng.choices(["default", "shifted", "duplicated"], [0.84, 0.08, 0.08])[0]
     if stream == "nan-decision" and base:
@@ -1403,7 +1438,6 @@ def gen_case(rng, tier):
             push(dict(op="renumber_objects", start=fb(float(rng.choice([1, 1, 5]))), default=rng.random() < 0.3))
         else:
             vk, vs = _values(rng, cur, f, doms)
-            vk = "list" if (lead == "remove" and vk == "tuple") else vk
             push(dict(op=lead, f=f, vs=vs, vkind=vk, omit_f=False, ret_df=False, reset="omit", twice=False, kw=False))
     if stream == "large-ids" and cur and rng.random() < 0.75:
         # request a value that has a DIFFERENT value of the same field within 1e-5 relative (adjacent particle numbers >= 1e5,
@@ -1453,7 +1487,6 @@ def gen_case(rng, tier):
             elif op.get("keep") and not op["self_df"] and cur and rng.random() < 0.6:
                 vk, vs = _values(rng, cur, "object_id", doms)
                 lead = rng.choice(["subset", "remove"])
-                vk = "list" if (lead == "remove" and vk == "tuple") else vk
                 push(dict(op=lead, f="object_id", vs=vs, vkind=vk, omit_f=False, ret_df=False, reset="omit", twice=False, kw=False))
     case = dict(base=base, cols=cols, ops=ops, stream=stream)
     if cls0 != "Motl":
@@ -1581,6 +1614,9 @@ def _vals(op):
         return tuple(vs)
     if k == "ndarray":
         return np.array(vs, dtype=float)
+    if k == "series":
+        import pandas as pd
+        return pd.Series(vs, dtype=float, index=[3 + 2 * i for i in range(len(vs))])     # labels unrelated to the list's
     return vs
 
 
@@ -1593,6 +1629,8 @@ def _snap(x):
     if isinstance(x, pd.DataFrame):
         t = _table(x)
         return ("DataFrame", t["cols"], t["rows"], t["index"], t.get("dtypes"), [int(i) if isinstance(i, (int, np.integer)) else str(i) for i in x.index[:400]])
+    if isinstance(x, pd.Series):
+        return ("Series", str(x.dtype), [int(i) for i in x.index], [fb(float(v)) for v in x.tolist()])
     if isinstance(x, np.ndarray):
         return ("ndarray", str(x.dtype), list(x.shape), [fb(float(v)) for v in x.ravel().tolist()])
     if isinstance(x, (list, tuple)):
@@ -2523,7 +2561,7 @@ LEVEL_NOTE = ("trusted: Lean kernel; translator anchors (alpha-normalised: names
               "(check_run_accepts_model, hypotheses: fill idempotent, nat injective), so the model-level history theorem is also a corollary of the checker theorems (history_rows_via_checkers); "
               "the merge-and-drop-duplicates checker reads the keys of a bare-DataFrame input (object_id, subtomo_id, score) after loading (loadKeys) and is always offered the model's own "
               "offsets (mergeOffsets on the REAL previous table) as one more certificate; the checker theorems are over ordered commutative rings with a lawful cell comparison; the driver decodes every cell into Cell (Model/C08_Cell.lean: an exact rational, "
-              "NaN -> the constant missing) and runs the checkers THERE -- an instance the theorems are about (section `executed` of Props/C08.lean) -- for every step without a missing "
+              "NaN -> the constant missing) and runs the checkers THERE -- an instance the theorems are about (section `executed` of Props/C08.lean) -- for every step without a missing or infinite "
               "key cell (keysPresent); steps with a missing key (nan-key / nan-decision streams) are judged by the missing-value-aware Float checkers (stepClausesM: not covered by "
               "theorems; dropDupClausesM_no_missing, *_witness theorems over the 3-valued type W); the MODEL (trace) still runs at IEEE doubles (trace_eq_run ties it to `run`); "
               "whole-body digests ignore annotations, message texts, discards and the position of constant initialisations; locals of the merges / the intersection are identified by role; "
